@@ -103,6 +103,7 @@ CondExprs == {
   Infix("&&", Infix("&&", Infix("<", Id("var.i"), i10), Infix(">=", Id("var.i"), iHex)), Infix("<=", Id("var.f"), f15)),
   Infix("==", idA, Cat(sA, idB, TRUE)),
   Infix("==", idA, sML),
+  Infix("&&", Group(idA), idB), Infix("||", idC, Infix("&&", Group(Not), Group(idB))),      \* plain groups as operands of a split condition
   Infix("&&", Group(Infix("&&", Cmp, Mat)), Not),                \* a group that is redundant for the grouping
   Infix("||", Infix("&&", Infix("==", idA, sWide), Infix("~", idB, sWide)), Infix("!=", idC, sWide))   \* wraps
 }
@@ -203,7 +204,7 @@ Case(test, body, ft) ==
              ELSE W("case") \o G("case", "after_kw", "in", TRUE) \o test.t \o G("case", "before_colon", "in", TRUE))
          \o W(":") \o G("case", "trail", "trail", TRUE) \o NL \o CatT(body)]
 TestEq(e)  == [a |-> [k |-> "test", op |-> "==", right |-> e.a], t |-> e.t]
-TestRe(e)  == [a |-> [k |-> "test", op |-> "~", right |-> e.a], t |-> W("~") \o e.t]
+TestRe(e)  == [a |-> [k |-> "test", op |-> "~", right |-> e.a], t |-> W("~") \o G("case", "after_tilde", "in", FALSE) \o e.t]
 Switch(ctl, cases) ==
   [a |-> [k |-> "switch", control |-> ctl.a, cases |-> SeqA(cases), p_blank |-> FALSE],
    t |-> G("switch", "lead", "lead", TRUE) \o W("switch") \o G("switch", "after_kw", "in", TRUE) \o W("(")
